@@ -124,7 +124,8 @@ func (r *Run) RunQ() bool {
 		if boundedProgress[r.Prop] {
 			// The workloads of these properties reach quiescence within a few
 			// hundred steps; their statements promise that operations return
-			// ("nothing blocks", "WaitStatus returns", "Loop returns"). A run that
+			// ("nothing blocks", "WaitStatus returns", "Loop returns", "Recv
+			// terminates", "each HTTP request is answered"). A run that
 			// is still busy after MaxSteps steps - a retry or polling loop that
 			// never ends - has not kept that promise within the step budget.
 			r.Fail("no-progress-within-step-budget", "the run did not reach quiescence within %d scheduling steps (simulated time %v): some goroutine keeps running without completing; last sites: %s", MaxSteps, r.Sim.SimTime, r.Sim.RecentSites(12))
@@ -179,7 +180,7 @@ var noPanicClause = map[string]bool{"C03": true, "C06": true, "C07": true, "C09"
 
 // boundedProgress: properties with a liveness clause, for which exhausting the
 // step budget is a violation rather than an unjudged run.
-var boundedProgress = map[string]bool{"C05": true, "C08": true, "C20": true}
+var boundedProgress = map[string]bool{"C05": true, "C08": true, "C20": true, "C12": true, "C18": true, "C19": true}
 
 // panicFuncs: a property without a general no-panic clause can still promise
 // "exactly once" for one mechanism; a double completion there shows only as a
